@@ -16,6 +16,7 @@ type Violation struct {
 // Scenario is a closed harness explored under the scheduler.
 type Scenario struct {
 	Name   string
+	Desc   string                                    // human-readable description of the member (families)
 	Before func()                                    // runs outside the scheduler before every execution (reset)
 	Body   func()                                    // thread 0
 	Check  func(x *Exec) (obs string, v []Violation) // oracle, runs after the execution (outside the scheduler)
@@ -51,6 +52,7 @@ type Stats struct {
 	SampleTrace   []string `json:"sample_trace,omitempty"`
 	ReplayChecked int      `json:"replay_determinism_checked"`
 	MaxPreempt    int      `json:"max_preemptions_used"`
+	Members       int      `json:"members,omitempty"` // scenario families: members explored
 }
 
 func (b Bounds) String() string {
